@@ -360,6 +360,30 @@ class SimRLock(_KernelObject):
         self.release()
 
 
+class SimThreadLock(SimLock):
+    """threading.Lock of the code under test: private to a process.  A fork copies it IN ITS CURRENT STATE - a lock
+    held by another thread of the parent stays locked for ever in the child."""
+
+    def __deepcopy__(self, memo):
+        new = SimThreadLock(self.k, self.role)
+        new.held = self.held
+        new.holder = None
+        return new
+
+
+class SimThreadRLock(SimRLock):
+    def __deepcopy__(self, memo):
+        new = SimThreadRLock(self.k, self.role)
+        if self.owner is not None and self.owner is not self.k.current:
+            new.owner = self.owner      # a thread that does not exist in the child: never released
+            new.count = self.count
+        return new
+
+
+class SimThreadEvent(_KernelObject):
+    pass
+
+
 class SimEvent(_KernelObject):
     def __init__(self, kernel, name="event"):
         self.k = kernel
@@ -548,6 +572,39 @@ class SimPipeQueue(_KernelObject):
 # processes
 
 from multiprocessing.process import BaseProcess  # noqa: E402
+
+
+def _copy_real_lock(lock, memo):
+    """A real threading lock inside a process object: the fork copies it in its current state."""
+    import _thread
+    new = _thread.allocate_lock()
+    if lock.locked():
+        new.acquire()
+    return new
+
+
+def _copy_real_rlock(lock, memo):
+    import threading
+    return threading.RLock()
+
+
+def _install_lock_copiers():
+    import _thread
+    import threading
+    copy._deepcopy_dispatch[_thread.LockType] = _copy_real_lock
+    copy._deepcopy_dispatch[type(threading.RLock())] = _copy_real_rlock
+
+
+_install_lock_copiers()
+
+
+def install_threading_shims(kernel, modules):
+    """Give every module under test a simulated `threading` (Lock / RLock / Event), also those that do not import
+    it today: a change that adds `import threading` at the top of the module is then still simulated."""
+    shim = ThreadingShim(kernel)
+    for m in modules:
+        m.threading = shim
+    return shim
 
 
 def fork_copy(obj):
@@ -761,11 +818,11 @@ class ThreadingShim:
 
     def Lock(self):
         self._n += 1
-        return SimLock(self._k, f"tlock{self._n - 1}")
+        return SimThreadLock(self._k, f"tlock{self._n - 1}")
 
     def RLock(self):
         self._n += 1
-        return SimRLock(self._k, f"trlock{self._n - 1}")
+        return SimThreadRLock(self._k, f"trlock{self._n - 1}")
 
     def __getattr__(self, name):
         if name in ("Condition", "Semaphore", "BoundedSemaphore", "Barrier", "Timer"):
